@@ -288,16 +288,17 @@ def multi_words(shape, thorough):
     plus schedules with restarts (R) where the shape stores its FlowIR."""
     n = len(shape['loops'])
     letters = 'ABC'[:n]
-    L = (6 if n == 2 else 4) if thorough else 4
+    L = (6 if n == 2 else 4) if thorough else 3
     words = [''.join(w) for w in itertools.product(letters, repeat=L)]
     kmax = 24 if thorough else 11
     longs = []
     for a in letters:
         for b in letters:
             if a != b:
-                longs.append(a * 2 + b * kmax)           # b far ahead of a (a registered before or after b)
-                longs.append(a * kmax + b * 3 + a)       # a ahead, then b catches up a little, then a again
-    longs.append((letters * kmax)[:n * (kmax if not thorough else 12)])     # lock step
+                longs.append(a * 2 + b * kmax)               # b far ahead of a (a registered before or after b)
+                if thorough or a < b:
+                    longs.append(a * kmax + b * 3 + a)       # a ahead, then b catches up a little, then a again
+    longs.append((letters * 12)[:n * (12 if thorough else 5)])     # lock step
     if shape['store']:
         longs.append('AAB' + 'R' + 'BBBA' + ('R' + 'B' * 8 + 'A' if thorough else ''))
         longs.append('BBA' + 'R' + 'AAAB')
